@@ -6,6 +6,7 @@ import WS.Model.Reader
 import WS.Spec.Inflate
 import WS.Gen.IntFns
 import WS.Model.Writer
+import WS.Model.Handshake
 /-
   Command table of the driver.  Every command is a pure function String → String.
 -/
@@ -188,6 +189,120 @@ def cmdWriter (args : List String) : String :=
     | _, _, _ => "bad-args"
   | _ => "bad-args"
 
+/-! ### handshake commands: strings travel as hex of their UTF-8 bytes -/
+
+def strOfHex (h : String) : Option Model.Str := do
+  let b ← ofHex h
+  let st ← String.fromUTF8? (ByteArray.mk b.toArray)
+  some st.toList
+
+def hexOfStr (x : Model.Str) : String := toHex (String.ofList x).toUTF8.toList
+
+def strList (h : String) : Option (List Model.Str) :=
+  if h == "" || h == "." then some [] else (h.splitOn ",").mapM strOfHex
+
+/-- header: `k:v,v;k:v` (each k, v hex), "." = empty -/
+def parseHdr (h : String) : Option Model.Hdr :=
+  if h == "." then some []
+  else (h.splitOn ";").mapM (fun kv =>
+    match kv.splitOn ":" with
+    | [k, vs] => do
+      let k ← strOfHex k
+      let vs ← strList vs
+      some (k, vs)
+    | _ => none)
+
+def coptsStr : Option Model.Copts → String
+  | none => "none"
+  | some c => s!"{b01 c.cnct}{b01 c.snct}"
+
+def parseCopts (x : String) : Option (Option Model.Copts) :=
+  match x with
+  | "none" => some none
+  | "00" => some (some ⟨false, false⟩)
+  | "01" => some (some ⟨false, true⟩)
+  | "10" => some (some ⟨true, false⟩)
+  | "11" => some (some ⟨true, true⟩)
+  | _ => none
+
+def cmdTokens (args : List String) : String :=
+  match args with
+  | [h, k] =>
+    match parseHdr h, strOfHex k with
+    | some h, some k => "ok " ++ String.intercalate "," ((Model.headerTokens h k).map hexOfStr)
+    | _, _ => "bad-args"
+  | _ => "bad-args"
+
+def cmdClientReq (args : List String) : String :=
+  match args with
+  | [m, maj, mi, h] =>
+    match strOfHex m, maj.toNat?, mi.toNat?, parseHdr h with
+    | some m, some maj, some mi, some h =>
+      s!"ok {Model.verifyClientRequest { method := m, protoMajor := maj, protoMinor := mi, host := [], hdr := h }}"
+    | _, _, _, _ => "bad-args"
+  | _ => "bad-args"
+
+def cmdSubproto (args : List String) : String :=
+  match args with
+  | [h, sp] =>
+    match parseHdr h, strList sp with
+    | some h, some sp => "ok " ++ hexOfStr (Model.selectSubprotocol { method := [], protoMajor := 1, protoMinor := 1, host := [], hdr := h } sp)
+    | _, _ => "bad-args"
+  | _ => "bad-args"
+
+def cmdAcceptKey (args : List String) : String :=
+  match args with
+  | [k] => match strOfHex k with
+    | some k => "ok " ++ hexOfStr (Model.secWebSocketAccept k)
+    | none => "bad-args"
+  | _ => "bad-args"
+
+def cmdOrigin (args : List String) : String :=
+  match args with
+  | [host, origin, parsed, pats] =>
+    match strOfHex host, strOfHex origin, (if parsed == "none" then some none else (strOfHex parsed).map some), strList pats with
+    | some host, some origin, some parsed, some pats =>
+      match Model.authenticateOrigin host origin parsed pats with
+      | .ok => "ok" | .forbidden => "forbidden" | .badPattern => "badpattern"
+    | _, _, _, _ => "bad-args"
+  | _ => "bad-args"
+
+def cmdGlob (args : List String) : String :=
+  match args with
+  | [p, n] =>
+    match strOfHex p, strOfHex n with
+    | some p, some n => match Model.glob p n with | .yes => "yes" | .no => "no" | .badPattern => "bad"
+    | _, _ => "bad-args"
+  | _ => "bad-args"
+
+def cmdSelDeflate (args : List String) : String :=
+  match args with
+  | [h, mode] =>
+    match parseHdr h, mode.toNat? with
+    | some h, some mode =>
+      match Model.selectDeflate (Model.websocketExtensions h) mode with
+      | none => "none"
+      | some c => s!"ok {coptsStr (some c)} {hexOfStr (Model.coptsString c)}"
+    | _, _ => "bad-args"
+  | _ => "bad-args"
+
+def cmdSrvExt (args : List String) : String :=
+  match args with
+  | [c, h] =>
+    match parseCopts c, parseHdr h with
+    | some c, some h => match Model.verifyServerExtensions c h with | .err => "err" | .ok r => "ok " ++ coptsStr r
+    | _, _ => "bad-args"
+  | _ => "bad-args"
+
+def cmdSrvResp (args : List String) : String :=
+  match args with
+  | [req, c, key, status, h] =>
+    match strList req, parseCopts c, strOfHex key, status.toNat?, parseHdr h with
+    | some req, some c, some key, some status, some h =>
+      match Model.verifyServerResponse req c key status h with | none => "err" | some r => "ok " ++ coptsStr r
+    | _, _, _, _, _ => "bad-args"
+  | _ => "bad-args"
+
 def handle (line : String) : String :=
   match line.splitOn " " with
   | [] => "bad-op"
@@ -203,6 +318,15 @@ def handle (line : String) : String :=
     | "hdr-enc" => cmdHdrEnc args
     | "hdr-dec" => cmdHdrDec args
     | "writer" => cmdWriter args
+    | "tokens" => cmdTokens args
+    | "client-req" => cmdClientReq args
+    | "subproto" => cmdSubproto args
+    | "accept-key" => cmdAcceptKey args
+    | "origin" => cmdOrigin args
+    | "glob" => cmdGlob args
+    | "sel-deflate" => cmdSelDeflate args
+    | "srv-ext" => cmdSrvExt args
+    | "srv-resp" => cmdSrvResp args
     | "ping" => "pong"
     | _ => "bad-op"
 
